@@ -43,7 +43,7 @@ var permitSpec = core.ResourceSpec{
 func c16(c *Ctx) {
 	p, r := c.P, c.R
 	r.Technique = "typestate (path search over go/ssa with defer/closure/flag/channel-handoff modelling) for every permit from acquisition to every exit, with per-function ownership summaries"
-	r.Explanation = "Decides that every transfer slot (Permit) obtained from the uTP controller is released or handed off on every control-flow exit: (R1) acquisition sites are the call sites of the functions wrapping semaphore.TryAcquire; (R2) from each acquisition, and in every function that takes ownership of a permit (parameter, captured variable, queue element), every path to every exit passes a Release, a deferred Release (including the flag-guarded deferred closure, evaluated with the flag's constant-propagated value per exit), a hand-off to a function/goroutine that itself discharges it, or a successful channel send of the carrier (the non-blocking select's default edge does not count); receivers of that channel are then obligated; (R3) the release action runs only under a successful compare-and-swap, semaphore.Release is called only from the actions built next to the matching TryAcquire with the same weight; (R4) the no-op permit is constructed only by the acquisition wrappers and the operator RPC entry points; (R5) every uTP call that waits for the peer (accept, dial, read-to-EOF, write) is given a context made by context.WithTimeout/WithDeadline, so a holder reaches its release when the peer stays silent. Not decided: peak concurrency as a number; behaviour of uTP timeouts; slots held by requests still queued at shutdown (observation)."
+	r.Explanation = "Decides that every transfer slot (Permit) obtained from the uTP controller is released or handed off on every control-flow exit: (R1) acquisition sites are the call sites of the functions wrapping semaphore.TryAcquire; (R2) from each acquisition, and in every function that takes ownership of a permit (parameter, captured variable, queue element), every path to every exit passes a Release, a deferred Release (including the flag-guarded deferred closure, evaluated with the flag's constant-propagated value per exit), a hand-off to a function/goroutine that itself discharges it, or a successful channel send of the carrier (the non-blocking select's default edge does not count); receivers of that channel are then obligated; (R3) the release action runs only under a successful compare-and-swap, semaphore.Release is called only from the actions built next to the matching TryAcquire with the same weight; (R4) the no-op permit is constructed only by the acquisition wrappers and the operator RPC entry points; (R5) every uTP call that waits for the peer (accept, dial, read-to-EOF, write) is given a context made by context.WithTimeout/WithDeadline, so a holder reaches its release when the peer stays silent; (R6) the fields that hold the semaphores and their holder are assigned only while their owner is being built (the limiter is never replaced while permits are out). Not decided: peak concurrency as a number; behaviour of uTP timeouts; slots held by requests still queued at shutdown (observation)."
 	r.Assumptions = []string{"golang.org/x/sync/semaphore is correct", "goroutines started with a permit run to one of their exits once their uTP waits time out (R5 checks that every wait has a deadline)", "panics are not exits"}
 	r.Floor("R1.acquire-site", 2)
 	r.Floor("R2.discharge", 4)
@@ -460,6 +460,62 @@ func c16(c *Ctx) {
 			})
 		}
 		r.Count("utp_waits", n)
+	}
+
+	// ---- R6: the limiter lives as long as the service: the fields that hold the semaphores (and
+	// the object holding them) are set when their owner is built and never again. A limiter
+	// swapped in later starts out fully free while permits of the old one are still out.
+	{
+		pk := p.Pkg("portalwire")
+		isSem := func(t types.Type) bool {
+			pt, ok := t.(*types.Pointer)
+			return ok && strings.HasSuffix(pt.Elem().String(), "semaphore.Weighted")
+		}
+		holdsSem := func(t types.Type) bool {
+			pt, ok := t.(*types.Pointer)
+			if !ok {
+				return false
+			}
+			st, ok := pt.Elem().Underlying().(*types.Struct)
+			if !ok {
+				return false
+			}
+			for i := 0; i < st.NumFields(); i++ {
+				if isSem(st.Field(i).Type()) {
+					return true
+				}
+			}
+			return false
+		}
+		nF := 0
+		if pk != nil {
+			sc := pk.Types.Scope()
+			for _, name := range sc.Names() {
+				tn, ok := sc.Lookup(name).(*types.TypeName)
+				if !ok {
+					continue
+				}
+				st, ok := tn.Type().Underlying().(*types.Struct)
+				if !ok {
+					continue
+				}
+				for i := 0; i < st.NumFields(); i++ {
+					f := st.Field(i)
+					if !isSem(f.Type()) && !holdsSem(f.Type()) {
+						continue
+					}
+					nF++
+					bad := ""
+					for _, w := range p.FieldWrites(name, f.Name()) {
+						if !w.Init {
+							bad = core.FuncName(w.Fn) + " at " + p.Pos(w.Store.Pos())
+						}
+					}
+					r.Check(bad == "", "R6.limiter-fixed", name+"."+f.Name(), "-", "assigned only while its owner is being built", "the limiter is replaced after construction ("+bad+"): the new one starts fully free while permits taken from the old one are still out and will be released into the orphan, so more transfers than the limit run at once")
+				}
+			}
+		}
+		r.Check(nF >= 2, "R6.limiter-fixed", "limiter fields", "-", fmt.Sprintf("%d fields holding a semaphore (or its holder) inspected", nF), fmt.Sprintf("only %d limiter fields found", nF))
 	}
 
 	// ---- R4: who may construct the no-op permit
